@@ -255,4 +255,8 @@ def run(ctx, prog):
     ci = d1(ctx, prog)
     d2(ctx, prog, ci)
     n = d3(ctx, prog, ci)
+    ctx.rule('C13-D4', 'axis-label typing of the MIA kernel, _compute_pdf and _compute: every broadcast aligned, (S,B,P,W) reduced to the documented (W,S)')
+    from .. import axes
+    n4 = axes.check_family(ctx, prog, 'C13-D4', [MIA])
     ctx.floor('logarithm call sites', n, 2)
+    ctx.floor('axis obligations (MIA)', n4, 12)
